@@ -21,10 +21,17 @@ Clause 2.  "TracebackInfo/ExceptionInfo ... list the same frames in the same ord
 file, line, function and source text as the standard traceback module, and their formatted output
 equals the interpreter's (position-marker lines aside)."
 
-  The frame walk itself (interpreter objects) is tied by the correspondence on live exceptions; the
-  theorems here are about the formatting algorithms, for every list of entries.  FULL statement
+  The formatting algorithms are proved for every list of entries.  FULL statement
   `eiFormat frames t m ++ "\n" = stdFormat frames t m` is false for runs of more than 3 identical
   entries (`format_eq_std_false`); `format_eq_std_partial` assumes `NoLongRun`.
+  The frame walk is modelled from what the interpreter hands over per traceback entry (`TbEntry`: file,
+  line number, function, the identity of the frame object, and what linecache can see of the file: cache
+  entry, file on disk, loader): TracebackInfo.from_traceback lists every entry whatever frame it refers to,
+  and `_DeferredLine` finds the line the traceback module finds - the current one, never a stale cached one
+  (`deferred_line_current`).  FULL statement `deferredRaw p k = stdRaw p k` is false in one state
+  (`lookup_eq_std_false`: complete cache entry, file gone, loader at hand - on the real interpreter the
+  traceback module has no stable answer there); `lookup_eq_std_partial` assumes `LookOK`.  How the
+  interpreter builds the entries (tb_next, f_code, tb_lineno) is tied by the correspondence only.
 -/
 namespace C16
 
@@ -218,5 +225,97 @@ theorem format_eq_std_false :
     ∃ frames etype msg, eiFormat frames etype msg ++ ['\n'] ≠ stdFormat frames etype msg := by
   refine ⟨List.replicate 4 (exCp 2 "f" "f()\n"), "E".toList, [], ?_⟩
   decide +kernel
+
+/-! ### the frame walk: every traceback entry, with the line the file holds now -/
+
+/- FULL: ∀ path k, deferredRaw path k = stdRaw path k   (false: lookup_eq_std_false).
+   Proved under the explicit decidable hypothesis `LookOK`. -/
+/-- `_DeferredLine` (checkcache, then getline with the module's name and loader) finds the line the
+    traceback module finds (lazycache, checkcache, getline), in every state of the cache, the file and
+    the loader but the one `LookOK` excludes -/
+theorem lookup_eq_std_partial (path : Str) (k : Look) (h : LookOK k = true) :
+    deferredRaw path k = stdRaw path k := deferredRaw_eq_stdRaw path k h
+
+example : LookOK ⟨.stamped 10 1 "old()\n".toList, some (12, 2, "new()\n".toList), some "ldr()\n".toList⟩ = true := by decide
+example : LookOK ⟨.absent, none, some "ldr()\n".toList⟩ = true := by decide
+
+/-- the excluded state: a complete entry is cached, the file is gone, the module has a loader -/
+theorem lookup_eq_std_false : ∃ path k, deferredRaw path k ≠ stdRaw path k := by
+  refine ⟨"/m.py".toList, ⟨.stamped 10 1 "old\n".toList, none, some "src\n".toList⟩, ?_⟩
+  decide +kernel
+
+/-- revalidation: whatever linecache holds for the file - nothing, a lazy entry, a complete entry read
+    when the file had another size or mtime - the line shown is the one the file on disk holds now
+    (an entry with the file's present size and mtime is assumed to hold the file's present text) -/
+theorem deferred_line_current (path : Str) (k : Look) (sz mt : Nat) (l : Str)
+    (hp : isPseudo path = false) (hd : k.disk = some (sz, mt, l))
+    (hpin : ∀ l', k.cache ≠ .pinned l')
+    (hcoh : ∀ l', k.cache = .stamped sz mt l' → l' = l) :
+    deferredRaw path k = l := by
+  obtain ⟨c, d, ld⟩ := k
+  simp only at hd hpin hcoh
+  subst hd
+  unfold deferredRaw
+  cases c with
+  | absent => simp [checkcache, getline, updatecache, hp]
+  | lazy l0 => simp [checkcache, getline, updatecache, hp]
+  | pinned l0 => exact absurd rfl (hpin l0)
+  | stamped s m l0 =>
+    simp only [checkcache]
+    split
+    · rename_i h
+      obtain ⟨rfl, rfl⟩ := h
+      simp [getline, hcoh l0 rfl]
+    · simp [getline, updatecache, hp]
+
+example : deferredRaw "/p/plugin.py".toList ⟨.stamped 10 1 "return 1 // x\n".toList,
+    some (12, 2, "return scale // x\n".toList), none⟩ = "return scale // x\n".toList := by decide +kernel
+
+/-- the file is gone and there is no loader: no source text, whatever was cached from the file -/
+theorem deferred_line_gone (path : Str) (k : Look) (hd : k.disk = none) (hl : k.loader = none)
+    (hc : ∀ l, k.cache ≠ .pinned l) (hz : ∀ l, k.cache ≠ .lazy l) : deferredRaw path k = [] := by
+  obtain ⟨c, d, ld⟩ := k
+  simp only at hd hl hc hz
+  subst hd hl
+  unfold deferredRaw
+  cases c with
+  | absent => simp [checkcache, getline, updatecache, lazycache]
+  | lazy l0 => exact absurd rfl (hz l0)
+  | pinned l0 => exact absurd rfl (hc l0)
+  | stamped s m l0 => simp [checkcache, getline, updatecache, lazycache]
+
+/-- "the same frames in the same order with the same file, line, function and source text": the lists
+    agree entry by entry, for every limit and sys.tracebacklimit, whatever frame objects the entries
+    refer to (after `raise e` in an `except` block a frame occurs in several entries) -/
+theorem live_frames_eq_extract_tb (tb : List TbEntry) (limit : Option Nat) (sys : Option Int)
+    (h : ∀ e ∈ tb, LookOK e.look = true) :
+    fromTraceback (tb.map walkB) (resolveLimit limit sys) = stdExtract (tb.map walkS) (resolveLimit limit sys) := by
+  rw [map_walk_eq tb h]; rfl
+
+/-- without a limit every traceback entry is listed, with its own file, line number and function -
+    also entries that refer to a frame already listed -/
+theorem from_traceback_lists_every_entry (tb : List TbEntry) :
+    (fromTraceback (tb.map walkB) none).map (fun c => (c.path, c.lineno, c.func))
+      = tb.map (fun e => (e.path, e.lineno, e.func)) := by
+  simp [fromTraceback, walkB, List.map_map, Function.comp_def]
+
+/-- ExceptionInfo.get_formatted of a live exception equals the interpreter's text: walk, line lookup and
+    layout together -/
+theorem live_format_eq_std_partial (tb : List TbEntry) (sys : Option Int) (etype msg : Str)
+    (h : ∀ e ∈ tb, LookOK e.look = true)
+    (hr : NoLongRun (stdExtract (tb.map walkS) (resolveLimit none sys)) = true) :
+    eiFormat (fromTraceback (tb.map walkB) (resolveLimit none sys)) etype msg ++ ['\n']
+      = stdFormat (stdExtract (tb.map walkS) (resolveLimit none sys)) etype msg := by
+  rw [live_frames_eq_extract_tb tb none sys h]
+  exact format_eq_std_partial _ etype msg hr
+
+def exTb : List TbEntry :=
+  [⟨"/a b/é.py".toList, 3, "<module>".toList, 0, ⟨.pinned "top()\n".toList, none, none⟩⟩,
+   ⟨"/p/plugin.py".toList, 9, "middle".toList, 1, ⟨.stamped 10 1 "old\n".toList, some (12, 2, "    raise e\n".toList), none⟩⟩,
+   ⟨"/p/plugin.py".toList, 6, "middle".toList, 1, ⟨.stamped 10 1 "old\n".toList, some (12, 2, "    return leaf(key)\n".toList), none⟩⟩,
+   ⟨"<string>".toList, 1, "<module>".toList, 2, ⟨.absent, none, some "x\n".toList⟩⟩]
+
+example : (∀ e ∈ exTb, LookOK e.look = true) ∧
+    NoLongRun (stdExtract (exTb.map walkS) (resolveLimit none (some 3))) = true := by decide +kernel
 
 end C16
